@@ -83,6 +83,21 @@ CHECKS = {
              "keyed data cell from a foreign IP must not open the outside socket; allowed canaries must get out.",
         note="The classifier is my reading of 'BitTorrent-shaped'/'IPv8-shaped'. Exhaustive over two-byte heads only in the "
              "thorough tier; remainder bytes and lengths are sampled."),
+    "C07": dict(
+        level="exploration", design="DESIGN.md 4/C07",
+        technique=TECH + ": (api) complete enumeration of operation sequences to depth 5/7 on the real TunnelEndpoint with real "
+                         "Circuit objects and real find_circuits; (net) seeded operation sequences on a real node with real circuits, "
+                         "hop crashes and loss on SimNet, oracle on the simulated wire",
+        text="Every interleaving up to depth 5 (quick, 9-symbol alphabet) / 7 (thorough, 11 symbols) of: anonymized send, plain "
+             "send, matching circuit ready, non-matching circuit ready, circuit closing, circuit removed, tunnel community "
+             "detached/attached, anonymity off/on, burst of 101 sends is run on the real TunnelEndpoint; each anonymized packet "
+             "must be handed to send_data over a READY circuit of the configured length with an IPv8 exit, or be queued (<= 100), "
+             "or be dropped - never reach the raw endpoint while anonymity is on; plain traffic must reach the raw endpoint "
+             "unchanged, once, in order. The same oracle is applied on the simulated wire to a real node (TunnelEndpoint over "
+             "UDPEndpoint, real TunnelCommunity, anonymized + plain Community) running seeded sequences of up to 30 operations "
+             "among real relays/exits, including hops crashing under a circuit.",
+        note="In the api family the raw endpoint and the tunnel community are stand-ins (the community's circuits and find_circuits "
+             "are real). While anonymity is switched off raw sends are allowed."),
     "C08": dict(
         level="exploration", design="DESIGN.md 4/C08",
         technique=TECH + ": real handshakes with retries under loss/duplication/reordering/long delays in virtual time; doctored "
